@@ -20,7 +20,7 @@ ASSUMPTIONS = [
     "seed reproducibility is a two-run relational obligation: draws inside an epoch opened with the same seed are identical, any draw outside such an epoch is independent between the runs",
 ]
 BOUNDS = {
-    "quick": "detector law: every input with <=3 photons on <=2 modes, both detector modes, all four regimes of (efficiency, p_dark), symbolic efficiency and p_dark; sampling methods: 2-3 mode circuits with rational reflectivities, 0-1 herald (0/1 photons), post-selection none/rule/predicate, min_detection 0..2, N = 1 (inputs) / 2 (outputs) draws",
+    "quick": "detector law: every input with <=3 photons on <=2 modes, both detector modes, all four regimes of (efficiency, p_dark), symbolic efficiency and p_dark; sampling methods: 2-3 mode circuits with rational reflectivities, 0-1 herald (0/1 photons), post-selection none/rule/predicate, min_detection 0..2, N = 1 (inputs) / 2 (outputs) draws; a circuit whose only photon sits on a heralded mode; seeds 42, 0, numpy integer, integral float",
     "thorough": "detector law up to 4 photons on 3 modes; N = 2 for sample_N_inputs",
 }
 OUTSIDE = "the RNG libraries; empirical convergence (replaced by equality of laws under A-EXT); N above the bound (covered by i.i.d.-ness of the stub)"
